@@ -81,6 +81,11 @@ typedef struct private_state {
   bitrate_manager_state bms;
 
   ogg_int64_t sample_count;
+
+  /* vorbis_synthesis_lapout has already made the unreturned data
+     contiguous; doing it again would shift it again. Cleared by the
+     next vorbis_synthesis_blockin */
+  int lapout_done;
 } private_state;
 
 /* codec_setup_info contains all the setup information specific to the
